@@ -1,4 +1,5 @@
 import Blue.Driver.Util
+import Blue.Driver.C16
 import Blue.Driver.C11
 import Blue.Driver.C14
 import Blue.Driver.C01
@@ -9,6 +10,8 @@ def dispatch (toks : List String) : String :=
   | "setsum" :: rest => Blue.Driver.C14.handle rest
   | "kvs" :: rest => Blue.Driver.C01.handle rest
   | "cur" :: rest => Blue.Driver.C11.handle rest
+  | "tk1" :: rest => Blue.Driver.C16.K1.handle rest
+  | "tk2" :: rest => Blue.Driver.C16.K2.handle rest
   | _ => "bad-op"
 
 partial def loop (h : IO.FS.Stream) (out : IO.FS.Stream) : IO Unit := do
